@@ -198,7 +198,17 @@ func nondeterminismUses(c *Ctx, fn *ssa.Function) []string {
 		k := calleeKey(cc)
 		for _, pfx := range nondetPrefixes {
 			if strings.HasPrefix(k, pfx) {
-				out = append(out, "call of "+shortKey(k)+" at "+c.InstrPos(i))
+				// a clock / pid / environment read whose result only ever reaches a diagnostic on
+				// stderr cannot change an output byte (diagonly.go)
+				universe := []*ssa.Function{fn}
+				if fn.Pkg == c.SPkg {
+					universe = c.SortedFuncs()
+				}
+				if ok, _ := diagnosticOnlySourceCall(c, i, universe); ok {
+					return
+				}
+				_, why := diagnosticOnlySourceCall(c, i, universe)
+				out = append(out, "call of "+shortKey(k)+" at "+c.InstrPos(i)+" (its result "+why+")")
 				return
 			}
 		}
@@ -633,6 +643,28 @@ func c06LoopShape(c *Ctx, r *Report, an *Anchors, p *Prov) {
 					if calleeKey(&x.Call) == c.pkgFn("RedactMongoLog") {
 						continue
 					}
+					if calleeKey(&x.Call) == "builtin len" {
+						// len(line) may only feed tests of the line for emptiness
+						okLen := true
+						for _, lu := range referrers(x) {
+							if _, isDbg := lu.(*ssa.DebugRef); isDbg {
+								continue
+							}
+							bo, isBin := lu.(*ssa.BinOp)
+							if !isBin {
+								okLen = false
+								continue
+							}
+							if _, isTest := emptyLineTest(bo); !isTest {
+								okLen = false
+							}
+						}
+						if okLen {
+							continue
+						}
+						bad = append(bad, "its length is used for something else than a test for emptiness at "+c.InstrPos(use))
+						continue
+					}
 					bad = append(bad, "passed to "+shortKey(calleeKey(&x.Call))+" at "+c.InstrPos(use))
 				case *ssa.Convert:
 					if depth < 3 {
@@ -776,12 +808,9 @@ func c06LoopShape(c *Ctx, r *Report, an *Anchors, p *Prov) {
 						}
 					}
 				}
-				if bo, ok := f.cond.(*ssa.BinOp); ok && (bo.Op == token.EQL || bo.Op == token.NEQ) {
-					eq := (bo.Op == token.EQL) == f.pol
-					for _, pair := range [][2]ssa.Value{{bo.X, bo.Y}, {bo.Y, bo.X}} {
-						if isEmptyStringConst(pair[1]) && isScannedLine(pair[0]) && eq {
-							hasLineEmpty = true
-						}
+				if bo, ok := f.cond.(*ssa.BinOp); ok {
+					if isEmpty, decided := emptyLineTest(bo); decided && isEmpty == f.pol {
+						hasLineEmpty = true
 					}
 				}
 			}
@@ -870,14 +899,63 @@ func isEmptyStringConst(v ssa.Value) bool {
 	return ok && s == ""
 }
 
+// isScannedLine: scanner.Text() / scanner.Bytes(), possibly under a string <-> []byte conversion.
 func isScannedLine(v ssa.Value) bool {
 	v = peel(v)
+	if cv, ok := v.(*ssa.Convert); ok {
+		v = peel(cv.X)
+	}
 	call, ok := v.(*ssa.Call)
 	if !ok {
 		return false
 	}
 	k := calleeKey(&call.Call)
-	return k == "(*bufio.Scanner).Text"
+	return k == "(*bufio.Scanner).Text" || k == "(*bufio.Scanner).Bytes"
+}
+
+// emptyLineTest: is the comparison a test of the scanned line for emptiness - `line == ""`,
+// `line != ""`, `len(line) == 0`, `len(line) != 0`, `len(line) > 0`, `len(line) < 1` ...? It
+// returns what the comparison's truth says about the line (true: empty) and whether it is one.
+func emptyLineTest(bo *ssa.BinOp) (emptyWhenTrue bool, ok bool) {
+	if bo.Op == token.EQL || bo.Op == token.NEQ {
+		for _, pair := range [][2]ssa.Value{{bo.X, bo.Y}, {bo.Y, bo.X}} {
+			if isEmptyStringConst(pair[1]) && isScannedLine(pair[0]) {
+				return bo.Op == token.EQL, true
+			}
+		}
+	}
+	lenOfLine := func(v ssa.Value) bool {
+		call, ok := peel(v).(*ssa.Call)
+		return ok && calleeKey(&call.Call) == "builtin len" && len(call.Call.Args) == 1 && isScannedLine(call.Call.Args[0])
+	}
+	op, x, y := bo.Op, bo.X, bo.Y
+	if !lenOfLine(x) {
+		if !lenOfLine(y) {
+			return false, false
+		}
+		x, y = y, x
+		switch op {
+		case token.LSS:
+			op = token.GTR
+		case token.GTR:
+			op = token.LSS
+		case token.LEQ:
+			op = token.GEQ
+		case token.GEQ:
+			op = token.LEQ
+		}
+	}
+	n, isC := constInt(y)
+	if !isC {
+		return false, false
+	}
+	switch {
+	case op == token.EQL && n == 0, op == token.LEQ && n == 0, op == token.LSS && n == 1:
+		return true, true
+	case op == token.NEQ && n == 0, op == token.GTR && n == 0, op == token.GEQ && n == 1:
+		return false, true
+	}
+	return false, false
 }
 
 // scanLoopExitProblems: exits from inside an iteration other than returning a non-nil error.
